@@ -70,6 +70,11 @@ struct Case {
     steps: Vec<Step>,
     /// Crash after this many steps (mapped into 0..=len; == len means clean drop).
     crash_raw: u16,
+    /// `Some(d)`: do not abort *before* the crash step but start it and abort from a timer
+    /// thread `d * 40` microseconds later (or right after the step, whichever comes first), so
+    /// that the crash lands inside a publish / ack / import call.
+    #[serde(default)]
+    crash_inside_us: Option<u8>,
 }
 
 #[derive(Clone, Debug, Serialize, Deserialize)]
@@ -78,6 +83,8 @@ enum Journal {
     Imported { hashes: Vec<String> },
     Received { hash: String, author: String, seq: u32 },
     AckOk { hash: String, author: String, seq: u32 },
+    /// Written before an explicit ack is issued (the crash may land inside it).
+    AckStart { hash: String, author: String, seq: u32 },
     StepDone(usize),
 }
 
@@ -172,6 +179,19 @@ pub fn worker_main() -> ! {
 
         for (i, step) in case.steps.iter().enumerate() {
             if i == crash_at {
+                match case.crash_inside_us {
+                    None => std::process::abort(),
+                    Some(d) => {
+                        let delay = Duration::from_micros(d as u64 * 40);
+                        std::thread::spawn(move || {
+                            std::thread::sleep(delay);
+                            std::process::abort();
+                        });
+                    }
+                }
+            }
+            if i > crash_at {
+                // The step the crash was aimed at is over: crash now at the latest.
                 std::process::abort();
             }
             match step {
@@ -248,6 +268,11 @@ pub fn worker_main() -> ! {
                 Step::Ack(which) => {
                     if !received.is_empty() {
                         let (hash, author, seq) = received[idx(*which, received.len())];
+                        log(Journal::AckStart {
+                            hash: hash.to_hex(),
+                            author: author.to_hex(),
+                            seq,
+                        });
                         if rx.ack(hash).await.is_ok() {
                             // `ack` fails silently for unknown (pruned) operations: only journal
                             // acknowledgements of operations that are still stored.
@@ -461,6 +486,13 @@ fn check_in(case: &Case, dir: &Path) -> CaseResult {
         // Oracle 2: journaled acknowledgements are durable.
         let mut acked_max: BTreeMap<String, u32> = BTreeMap::new();
         for j in &journal {
+            // An acknowledgement that was started may or may not have reached the database.
+            if let Journal::AckStart { author, seq, .. } = j {
+                let a = acked_max.entry(author.clone()).or_insert(*seq);
+                *a = (*a).max(*seq);
+            }
+        }
+        for j in &journal {
             if let Journal::AckOk { author, seq, hash } = j {
                 let a = acked_max.entry(author.clone()).or_insert(*seq);
                 *a = (*a).max(*seq);
@@ -529,6 +561,7 @@ fn check_in(case: &Case, dir: &Path) -> CaseResult {
         let steps_done = journal.iter().filter(|j| matches!(j, Journal::StepDone(_))).count();
         Ok(CaseOk::nontrivial(!expected.is_empty())
             .label_if(!clean, "process_abort")
+            .label_if(!clean && case.crash_inside_us.is_some(), "crash_inside_a_step")
             .label_if(clean, "clean_drop")
             .label_if(case.explicit_policy, "explicit_policy")
             .label_if(unacked_exists, "stored_never_acked_operation_at_restart")
@@ -578,6 +611,7 @@ pub fn run(mut ctx: Ctx) -> ! {
                     explicit_policy,
                     steps,
                     crash_raw,
+                    crash_inside_us: None,
                 });
             // Structured histories: deliver and acknowledge a prefix, then produce more
             // operations and crash late – the shape in which the cursor sits strictly inside a
@@ -620,9 +654,15 @@ pub fn run(mut ctx: Ctx) -> ! {
                         explicit_policy,
                         steps,
                         crash_raw,
+                        crash_inside_us: None,
                     }
                 });
-            prop_oneof![1 => random, 1 => structured]
+            let base = prop_oneof![1 => random, 1 => structured];
+            // 40 %: the crash lands inside the chosen step instead of in front of it.
+            (base, prop::option::weighted(0.4, any::<u8>())).prop_map(|(mut case, inside)| {
+                case.crash_inside_us = inside;
+                case
+            })
         },
         move |case| check(case, &tmp2),
     );
